@@ -744,6 +744,142 @@ inline bool faults_S(Rng& r, uint64_t idx)
   return ok && !run.failed;
 }
 
+// ================================================================================================ btfaults (C10)
+// A sink whose write_log throws while it is handed a backtrace REPLAY (or the statement that triggers one): "at most
+// that one statement is missing from that sink and the sinks after it; every other statement is still delivered
+// exactly once and in order". One logger over three recording sinks, one logging thread (exact ring model), the
+// throwing (sink, write-call index) is enumerated over every write of the history.
+inline bool btfaults_S(Rng& r, uint64_t idx)
+{
+  World w;
+  w.tag = "yS" + std::to_string(idx);
+  w.random_backend_options(r);
+  w.make_sinks(3);
+  static uint32_t const orders[3][3] = {{0, 1, 2}, {2, 0, 1}, {1, 2, 0}};
+  uint32_t const* ord = orders[(idx / 3) % 3];
+  w.make_logger({ord[0], ord[1], ord[2]});
+  recorder().clear();
+  SRun run{w, r};
+  SW& a = run.spawn();
+  SW* sp = &a;
+  World* wp = &w;
+  int const sink_fault = static_cast<int>(idx % 3);
+  int const sink_call = static_cast<int>((idx / 9) % 26); // beyond the last write: control case, nothing throws
+  w.sinks[sink_fault]->throw_on_write.store(sink_call);
+  BtModel m;
+  m.cap = static_cast<uint32_t>(r.range(1, 5));
+  m.flush_level = r.chance(1, 2) ? quill::LogLevel::Error : quill::LogLevel::None;
+  {
+    uint32_t const cap = m.cap;
+    quill::LogLevel const fl = m.flush_level;
+    run.run_on(a, [wp, cap, fl] { tl_control_op = true; wp->loggers[0].lg->init_backtrace(cap, fl); tl_control_op = false; }, "init_backtrace");
+    if (a.w->parked()) run.wait_for(a, "btfaults_S");
+    run.drain("btfaults_S");
+  }
+  bool const lag = r.chance(1, 2);
+  uint64_t stores = 0, triggers = 0;
+  auto settle = [&] { if (a.w->parked()) run.wait_for(a, "btfaults_S"); if (!lag || r.chance(1, 4)) run.poll(); };
+  auto store = [&]
+  {
+    uint32_t const seq = a.seq++;
+    bool const named = r.chance(1, 4);
+    run.run_on(a, [wp, sp, seq, named] { log_bt(wp->loggers[0].lg, named, sp->tid, seq, 5); }, "bt");
+    m.store(a.tid, seq);
+    ++stores;
+    settle();
+  };
+  auto ordinary = [&](quill::LogLevel lvl)
+  {
+    uint32_t const seq = a.seq++;
+    run.run_on(a, [wp, sp, seq, lvl] { std::vector<Issue> tmp; issue_std(tmp, wp->loggers[0].lg, 0, lvl, sp->tid, seq, 3); }, "log");
+    m.expected.emplace_back(a.tid, seq);
+    if (lvl >= m.flush_level) { m.flush(); ++triggers; }
+    settle();
+  };
+  auto trigger = [&]
+  {
+    if (m.flush_level == quill::LogLevel::Error && r.chance(1, 2)) { ordinary(quill::LogLevel::Error); return; }
+    run.run_on(a, [wp] { tl_control_op = true; wp->loggers[0].lg->flush_backtrace(); tl_control_op = false; }, "flush_backtrace");
+    m.flush();
+    ++triggers;
+    settle();
+  };
+  for (int phase = 0; phase < 3 && !run.failed; ++phase)
+  {
+    uint32_t const n = static_cast<uint32_t>(r.range(phase == 2 ? 0 : 1, m.cap + 2));
+    for (uint32_t i = 0; i < n && !run.failed; ++i)
+    {
+      store();
+      if (r.chance(1, 3)) ordinary(quill::LogLevel::Info);
+    }
+    trigger();
+    if (r.chance(1, 2)) ordinary(quill::LogLevel::Info);
+  }
+  ordinary(quill::LogLevel::Info);
+  trigger(); // whatever is still held back comes out here
+  bool ok = !run.failed && run.drain("btfaults_S");
+  if (ok)
+  {
+    auto const& E = m.expected;
+    bool const throws = static_cast<size_t>(sink_call) < E.size();
+    std::pair<uint32_t, uint32_t> const X = throws ? E[static_cast<size_t>(sink_call)] : std::make_pair(0u, 0u);
+    auto evs = recorder().snapshot();
+    bool after = false;
+    for (uint32_t pos = 0; pos < 3 && ok; ++pos)
+    {
+      uint32_t const si = ord[pos];
+      if (static_cast<int>(si) == sink_fault) after = true;
+      std::vector<std::pair<uint32_t, uint32_t>> got;
+      for (auto const& e : evs)
+        if (e.kind == 'w' && e.sink == w.sink_id_base + si)
+        {
+          Parsed p = parse_msg(e.msg);
+          if (p.ok) got.emplace_back(p.tid, p.seq);
+        }
+      std::vector<std::pair<uint32_t, uint32_t>> without;
+      for (auto const& id : E) if (!throws || id != X) without.push_back(id);
+      bool good;
+      if (!throws || !after) good = got == E;
+      else if (static_cast<int>(si) == sink_fault) good = got == without;
+      else good = got == E || got == without;
+      if (!good)
+      {
+        std::map<std::pair<uint32_t, uint32_t>, int> cnt;
+        for (auto const& id : got) ++cnt[id];
+        uint64_t dups = 0, missing = 0;
+        for (auto const& kv : cnt) if (kv.second > 1) ++dups;
+        for (auto const& id : E) if (!cnt.count(id) && (!throws || id != X)) ++missing;
+        std::string g, e;
+        for (auto const& id : got) g += std::to_string(id.second) + " ";
+        for (auto const& id : E) e += std::to_string(id.second) + " ";
+        violation("C10", dups ? "statement-written-twice-after-a-sink-threw-during-a-backtrace-replay" : missing ? "statement-lost-after-a-sink-threw-during-a-backtrace-replay" : "statements-reordered-after-a-sink-threw-during-a-backtrace-replay",
+                  J{}.unum("sink", si).num("throwing_sink", sink_fault).num("throwing_write_call", sink_call).unum("statement_that_threw_seq", X.second).unum("duplicated", dups).unum("missing_besides_that_one", missing).unum("capacity", m.cap).str("delivered_seqs", g.substr(0, 300)).str("expected_seqs", e.substr(0, 300)).boolean("sink_is_at_or_after_the_throwing_one", after).str("scenario", "btfaults_S").raw("cfg", w.describe()));
+        ok = false;
+      }
+    }
+    if (ok && throws)
+    {
+      size_t notes = 0;
+      for (auto const& n : recorder().notes_snapshot()) if (n.second.find("Quill INFO") == std::string::npos) ++notes;
+      if (!notes)
+      {
+        violation("C10", "fault-not-reported-through-error-notifier", J{}.unum("notifier_messages", notes).unum("faults_injected", 1).str("scenario", "btfaults_S").raw("cfg", w.describe()));
+        ok = false;
+      }
+    }
+    if (throws) stat_add("btfaults_scenarios_with_a_throw");
+    if (throws) stat_sig("faults_sigs", "B/" + std::to_string(sink_fault) + "/" + std::to_string(sink_call) + "/" + std::to_string((idx / 3) % 3) + "/" + std::to_string(run.sig_hash));
+    run.finish_workers();
+    run.poll();
+  }
+  stat_add("faults_scenarios");
+  stat_add("btfaults_scenarios");
+  stat_add("btfaults_stores", static_cast<long long>(stores));
+  stat_add("btfaults_triggers", static_cast<long long>(triggers));
+  w.teardown_loggers();
+  return ok && !run.failed;
+}
+
 inline bool run_more_family(std::string const& family, Rng& sr, uint64_t i, bool& ok);
 } // namespace e2e
 #include "e2e/fam_more2.h"
